@@ -392,6 +392,10 @@ class WingSegment:
                     # Calculate sweep
                     sweep[i] = -np.arctan((p1[0]-p0[0])/np.sqrt((p1[1]-p0[1])**2 + (p1[2]-p0[2])**2))
 
+                # Same per-side sign convention as for a sweep given as an angle
+                if self.side == "left":
+                    sweep = -sweep
+
                 # Convert back to float if needed
                 if converted:
                     span = span.item()
